@@ -67,8 +67,8 @@ class Armorable(metaclass=abc.ABCMeta):
                          # capture all lines of the body, up to 76 characters long,
                          # including the newline, and the pad character(s)
                          (?P<body>([A-Za-z0-9+/]{1,76}={,2}(?:\r?\n))+)
-                         # capture the armored CRC24 value
-                         ^=(?P<crc>[A-Za-z0-9+/]{4})(?:\r?\n)
+                         # capture the armored CRC24 value; the checksum line is optional (RFC 4880 6.1: "MAY appear")
+                         (?:^=(?P<crc>[A-Za-z0-9+/]{4})(?:\r?\n))?
                          # finally, capture the armor tail line, which must match the armor header line
                          ^-{5}END\ PGP\ (?P=magic)-{5}(?:\r?\n)?
                          """, flags=re.MULTILINE | re.VERBOSE)
@@ -152,10 +152,16 @@ class Armorable(metaclass=abc.ABCMeta):
 
         if m['body'] is not None:
             try:
+                nchars = len(re.sub(r'[\r\n]', '', m['body']))
                 m['body'] = bytearray(base64.b64decode(m['body'].encode()))
 
             except (binascii.Error, TypeError) as ex:
                 raise PGPError(str(ex)) from ex
+
+            # b64decode stops at the first complete padding: anything behind it (a checksum line that lost its
+            # '=', now that the line is optional) must not be dropped silently
+            if nchars != 4 * ((len(m['body']) + 2) // 3):
+                raise PGPError("Characters after the end of the base64 data")
 
         if m['crc'] is not None:
             m['crc'] = Header.bytes_to_int(base64.b64decode(m['crc'].encode()))
